@@ -137,6 +137,28 @@ type Env struct {
 	// NontrivialIf, if set, decides Result.Nontrivial after the run (when
 	// scheduler statistics are known).
 	NontrivialIf func(res *Result) bool
+	// openFiles counts Files that are open or being opened/closed by the harness.
+	// Every File owns exactly one writer goroutine; after File.Close returned it
+	// must be gone (scheduler invariant, see RunSim).
+	openFiles int
+}
+
+// OpenFile opens a File on a simulated disk (txfile.Open minus os file and path lock).
+func (e *Env) OpenFile(d txfile.VerifDisk, o txfile.Options) (*txfile.File, error) {
+	e.openFiles++
+	f, err := txfile.VerifOpenWith(d, o)
+	if err != nil {
+		e.openFiles--
+		return nil, err
+	}
+	return f, nil
+}
+
+// CloseFile closes a File.
+func (e *Env) CloseFile(f *txfile.File) error {
+	err := f.Close()
+	e.openFiles--
+	return err
 }
 
 // Rng returns a generator for the given purpose, independent of all others.
@@ -278,6 +300,12 @@ func RunSim(t *testing.T, c *Case, keepTrace bool, body Body) (res *Result) {
 					ids[i], ids[j] = ids[j], ids[i]
 				}
 			}
+			s.Invariant = func(parkedBg int) error {
+				if parkedBg > env.openFiles {
+					return fmt.Errorf("%d background writer goroutine(s) of the engine are still running although only %d File(s) are open: File.Close returned (or Open failed) without waiting for its writer goroutine", parkedBg, env.openFiles)
+				}
+				return nil
+			}
 			s.Go("main", func() { body(env) })
 			schedErr = s.Run()
 			if schedErr == nil {
@@ -341,6 +369,8 @@ func RunSim(t *testing.T, c *Case, keepTrace bool, body Body) (res *Result) {
 			res.Viol = &Violation{Prop: liveProp(c.Prop), Class: "deadlock", Msg: e.Error()}
 		case *simsched.ErrBudget:
 			res.Viol = &Violation{Prop: liveProp(c.Prop), Class: "livelock", Msg: e.Error()}
+		case *simsched.ErrInvariant:
+			res.Viol = &Violation{Prop: "C09", Class: "writer-goroutine-leak", Msg: e.Error()}
 		case *simsched.ErrReplay:
 			res.Viol = &Violation{Prop: "HARNESS", Class: "replay-diverged", Msg: e.Error()}
 		default:
